@@ -114,7 +114,7 @@ func failModes(client string) []string {
 func fixedHistories(client string) []History {
 	var hs []History
 	add := func(name string, getSSE bool, steps []Step) {
-		hs = append(hs, History{Client: client, Fixed: name, GetSSE: getSSE, Steps: steps})
+		hs = append(hs, History{Client: client, Fixed: name, GetSSE: getSSE && client == ckStreamable, Steps: steps})
 	}
 	for _, o := range allOps {
 		add("fresh-"+o, false, []Step{stGet, opStep(o), stGet})
